@@ -22,16 +22,75 @@ def single(sub, qcases, tcases, cfg="native", **kw):
     return r
 
 
+def S(rule, q, t, minq, nda=True, **kw):
+    runs = [single("single", q, t)]
+    if nda:
+        runs.append(single("single-nda", 0, max(1, t // 3), cfg="native-nda"))
+    d = {"rule": rule, "runs": runs, "min_counts": {"quick": minq}, "assumptions": ASSUME_SINGLE}
+    d.update(kw)
+    return d
+
+
+DIST = "; distinct by hash of the printed program+history"
 PLANS = {
-    "C01": {
-        "rule": "case = seeded (program, history) of the acyclic-mixed family run on one handle with every request compared "
-                "to the reference interpreter; non-trivial iff the run saw >=1 DidValidateMemoizedValue, >=1 re-execution "
-                "after a write and >=1 re-execution with an equal value (backdate opportunity); distinct by hash of "
-                "the printed program+history",
-        "runs": [single("single", 20000, 600000), single("single-nda", 0, 200000, cfg="native-nda")],
-        "min_counts": {"quick": {"ev_validate": 1000, "equal_reexec": 1000}},
-        "assumptions": ASSUME_SINGLE,
-    },
+    "C01": S("case = seeded (program, history) of the acyclic-mixed family (plain/no_eq/lru/multi-argument functions, makers of "
+             "tracked structs, interning into reclaimable types, untracked reads) run on one handle with every request compared "
+             "to the reference interpreter; non-trivial iff the run saw >=1 DidValidateMemoizedValue, >=1 re-execution after a "
+             "write and >=1 re-execution with an equal value (backdate opportunity)" + DIST,
+             200000, 6000000, {"ev_validate": 100000, "equal_reexec": 50000, "ev_reuse_interned": 2000, "structs_made": 50000}),
+    "C02": S("case = seeded (program, history) with writes of durability keep/LOW/MEDIUM/HIGH/NEVER_CHANGE (raising and lowering), "
+             "synthetic writes of every durability, rejected never-change writes; values compared to the reference, panic model for "
+             "frozen fields; non-trivial iff >=1 validation, >=1 re-execution after a write and >=1 write with an explicit durability" + DIST,
+             200000, 6000000, {"ev_validate": 100000, "reexec_after_write": 50000, "never_change_rejections": 500}),
+    "C03": S("case = seeded acyclic (program, history) without specify; every WillExecute is checked against the justification model "
+             "(first execution, discarded/re-generated key, eviction, untracked read, or a recorded dependency that changed since the "
+             "last validation); non-trivial iff >=1 validation, >=1 justified re-execution and >=1 equal-value re-execution" + DIST,
+             200000, 6000000, {"justified": 100000, "ev_validate": 100000, "equal_reexec": 50000}),
+    "C04": S("case = seeded (program, history) where functions read harness cells through untracked reads and the cells are poked "
+             "between revisions; values vs reference plus the rule 'a function whose last execution read untracked state is executed "
+             "again in every later revision in which a from-scratch evaluation of the request calls it'; non-trivial iff >=1 such "
+             "re-execution was observed" + DIST,
+             200000, 6000000, {"untracked_reexec": 20000, "untracked_equal_reexec": 5000, "untracked_changed_reexec": 2000}),
+    "C05": S("case = seeded (program with 6-12 lru functions, history with set_lru_capacity 0..5, trigger_lru_eviction, writes); "
+             "values vs reference (transparency) and, after every write/eviction point, the set of lru keys still holding a value "
+             "(live-instance registry of the value type) vs an exact LRU model; non-trivial iff >=1 eviction point with an eviction" + DIST,
+             200000, 6000000, {"lru_eviction_points": 50000, "lru_evicted": 50000, "lru_evicted_rerequested": 20000, "lru_capacity_changes": 20000}),
+    "C06": S("case = seeded (program with makers creating 0-3 tracked structs with identity values from {0,1}, history); identity "
+             "model keyed by (creator, identity value, occurrence) vs observed ids, discards, entries() enumeration; non-trivial iff "
+             ">=1 identity preserved across a creator re-execution and >=1 DidDiscard" + DIST,
+             200000, 6000000, {"identity_preserved": 50000, "struct_deletions": 5000, "entries_checked": 100000, "tracked_slot_reuse": 1000}),
+    "C07": S("case = seeded churn (program, history): interned types with revisions=1..3 and constant hash, makers toggling creation, "
+             "functions keyed by structs/interned values/argument tuples whose results embed a digest of the key's fields; values vs "
+             "reference + identity bookkeeping; non-trivial iff >=1 interned slot reuse or tracked slot reuse" + DIST,
+             150000, 4000000, {"ev_reuse_interned": 20000, "tracked_slot_reuse": 5000}),
+    "C09": S("case = seeded (program, history) interning into types with revisions in {1,2,3,unbounded} under LOW..HIGH durabilities; "
+             "every DidReuseInternedValue is checked against the retention model (type collectable, slot only ever interned under LOW, "
+             "not used in any of the last `revisions` use-revisions, enough use-revisions); non-trivial iff >=1 reuse or survival" + DIST,
+             150000, 4000000, {"retention_reuses_checked": 20000, "interned_identity_kept": 100000, "interned_revalidations": 20000}),
+    "C10": S("case = seeded (program with creators that conditionally specify, pre-read, specify twice or specify foreign structs, "
+             "history); q_spec results vs reference, no body execution after a specification, expected panics; non-trivial iff >=1 "
+             "specification and >=1 specified value served" + DIST,
+             200000, 6000000, {"specified": 100000, "spec_served": 50000, "spec_served_creator_green": 5000, "spec_computed": 20000}),
+    "C11": S("case = seeded (program with accumulating functions at several depths, history); accumulated::<Diag>() compared (order and "
+             "multiset) with the reference DFS of a from-scratch evaluation; non-trivial iff values were pushed, >=1 memo was "
+             "validated and >=1 non-empty accumulated list was returned" + DIST,
+             200000, 6000000, {"accum_nonempty": 50000, "ev_validate": 100000}),
+    "C12": S("case = seeded cyclic (program over a 2-3 bit set lattice with monotone bodies, cycle_initial=bottom, default or joining "
+             "cycle_fn, input-controlled branches, nested cycles, value-controlled monotone branches; history with all entry orders); "
+             "every result vs the least fixpoint from two independent solvers; non-trivial iff >=1 request of a cycle member and "
+             ">=1 WillIterateCycle" + DIST,
+             300000, 8000000, {"cyclic_requests": 500000, "nested_cycle_requests": 100000, "ev_iterate": 50000}),
+    "C13": S("case = seeded cyclic (program whose functions all use cycle_result, input-dependent call edges; history); every result vs "
+             "the SCC oracle (fallback for members of cyclic SCCs, body value otherwise); non-trivial iff >=1 request of a cycle member" + DIST,
+             200000, 6000000, {"cyclic_requests": 500000, "nested_cycle_requests": 50000}),
+    "C14": S("case = seeded cyclic (program with cycles through functions without recovery, pure or mixed with fixpoint functions; "
+             "history that breaks the cycles again); outcome class per request (cycle panic / least fixpoint / propagated panic), "
+             "step bound, later results vs reference; non-trivial iff >=1 cycle panic" + DIST,
+             200000, 6000000, {"cycle_panics": 500000}),
+    "C15": S("case = seeded cyclic (program with xor/and-not/add inside cycles, 12-bit values so they do not stabilise; history that "
+             "switches them to convergent); iteration numbers <= 200, 'too many cycle iterations' panic, step bound, later results vs "
+             "reference; non-trivial iff >=1 too-many-iterations panic" + DIST,
+             60000, 1500000, {"too_many_panics": 2000, "iterations": 500000}),
 }
 for _p in PLANS.values():
     _p["runs"] = [r for r in _p["runs"]]
